@@ -14,3 +14,21 @@ Theorem C15_plain_example_has_shape : forall optd w, keys_distinct w = true ->
   shape_ok (compile optd w) (example_value w) = true.
 Proof. exact example_has_shape. Qed.
 Print Assumptions C15_plain_example_has_shape.
+
+(* The example builder for user types (Schema/Example.v, the model of exampleBuilder.Build after
+   fix 6ca17f0): what the strict builder returns for a node is accepted by the set semantics of
+   that node over the type graph (Schema/MachineSpec.v), provided object keys are pairwise
+   distinct; on the plain-JSON fragment the builder returns [example_value]. *)
+From Coq Require Import Arith.
+From JS Require Import Common.Wire Schema.Machine Schema.MachineSpec Schema.Example Schema.ExampleProofs.
+Import ListNotations.
+
+Theorem C15_example_accepted_by_type_graph : forall F g path n ex, mwf g n = true -> mclosed g n = true ->
+  build F true g path n = BVal ex -> exists F0, forall F', F0 <= F' -> maccepts F' g n ex = true.
+Proof. exact build_strict_sound. Qed.
+Print Assumptions C15_example_accepted_by_type_graph.
+
+Theorem C15_plain_example_is_the_example : forall optd w, exists F0, forall F, F0 <= F ->
+  build F true [] [] (of_snode (compile optd w)) = BVal (ShapeSelf.example_value w).
+Proof. exact build_plain. Qed.
+Print Assumptions C15_plain_example_is_the_example.
